@@ -1906,6 +1906,24 @@ def m_slice_get(ex, st, args, dty, canon):
     raise Fork(alts)
 
 
+@pattern(r'^<impl str>::len$|^core::str::<impl str>::len$|^(std::string::)?String::len$')
+def m_str_len(ex, st, args, dty, canon):
+    v = deref_all(ex, st, args[0])
+    if isinstance(v, Obj) and v.kind == 'bstr':
+        return Sc(v.data[0], 'usize')
+    s_ = as_str(ex, st, v)
+    t = z3.simplify(s_.t)
+    if z3.is_string_value(t):
+        return Sc(z3.IntVal(len(t.as_string().encode())), 'usize')
+    # an unbounded symbolic string: its length is a non-negative integer that is 0 exactly for the empty string
+    # (an abstraction of z3's sequence length, which stalls the solver on these queries; nothing else about the
+    # relation between content and length is used)
+    nm = 'strlen!' + str(t)
+    c = z3.Int(nm)
+    ex.axioms[nm] = z3.And(c >= 0, (c == 0) == (t == z3.StringVal('')))
+    return Sc(c, 'usize')
+
+
 @pattern(r'^<impl \[.*\]>::(len|is_empty)$|^core::slice::<impl \[.*\]>::(len|is_empty)$')
 def m_slice_len(ex, st, args, dty, canon):
     v = deref_all(ex, st, args[0])
